@@ -441,6 +441,7 @@ TickStep(j) == TickEnabled(S) /\ S' = Norm(Tick(S, j)) /\ hist' = %(hist_tick)s 
 Done == AllDone(S) /\ UNCHANGED vars
 Next == (\E t \in Thr : ThreadStep(t)) \/ (\E j \in Jumps : TickStep(j)) \/ Done
 Spec == Init /\ [][Next]_vars
+SimSpec == Init /\ [][(\E t \in Thr : ThreadStep(t)) \/ (\E j \in Jumps : TickStep(j))]_vars
 FairSpec == Spec /\ (\A t \in Thr : SF_vars(ThreadStep(t))) /\ WF_vars(\E j \in Jumps : TickStep(j))
 
 View == <<[S EXCEPT !.out = <<>>], ticks>>
@@ -482,7 +483,7 @@ def mc_module(d, name, prog, drop=0, qn=256, ndefs=None, scaled=True, close_retr
 
 def mc_cfg(d, name, liveness=False, constraint=False, emit=False, view=True):
     path = os.path.join(d, name + ".cfg")
-    lines = ["SPECIFICATION %s" % ("FairSpec" if liveness else "Spec"),
+    lines = ["SPECIFICATION %s" % ("FairSpec" if liveness else "SimSpec" if emit else "Spec"),
              "INVARIANT InvC06", "INVARIANT InvC07", "INVARIANT InvFinal", "INVARIANT InvType"]
     if liveness:
         lines.append("PROPERTY Termination")
@@ -490,6 +491,7 @@ def mc_cfg(d, name, liveness=False, constraint=False, emit=False, view=True):
         lines.append("CONSTRAINT TickBound")
     if emit:
         lines.append("INVARIANT EmitScript")
+        lines.append("CHECK_DEADLOCK FALSE")
     if view:
         lines.append("VIEW View")
     open(path, "w").write("\n".join(lines) + "\n")
@@ -627,8 +629,7 @@ def sim_scripts(sc, name, prog, drop, num, depth, qn=256):
             n = int(v)
             toks.append(str(n) if n >= 0 else {0: "T", 6000: "J", 21000: "K"}[-1 - n])
         scripts.append("".join(toks))
-    if r.violated and r.violated != "EmitScript":
-        return scripts, r
+    scripts = sorted(set(scripts))
     return scripts, r
 
 
